@@ -14,9 +14,11 @@ package c12
 
 import (
 	"encoding/hex"
+	"encoding/json"
 	"fmt"
 	"strings"
 
+	"verif/internal/b2fx"
 	"verif/internal/mboxkit"
 	"verif/internal/vrt"
 )
@@ -147,6 +149,27 @@ func plan(seed int64, tier string) []vrt.Case {
 	for lo := 0; lo < len(fixed); lo += per {
 		batch(fmt.Sprintf("fixed-%d", lo), fixed[lo:min(lo+per, len(fixed))])
 	}
+	// The "through a real Session" leg: the reference B2F peer proposes a message to a real Session
+	// whose handler is the directory mailbox. Variant 1: the hostile identifier is the proposed MID
+	// and the message's Mid header. Variant 2: a harmless MID is proposed and only the Mid header of
+	// the delivered message is hostile (the handler is asked about one name and stores under another).
+	var sess []mboxkit.Op
+	for i, m := range fixed {
+		inLine := !strings.ContainsAny(m.MID, " \r\n\x00") && m.MID != ""
+		mk := func(proposed, header string, variant string) {
+			arg, _ := json.Marshal(b2fx.SessionJailArg{HeaderMID: []byte(header), LibMaster: i%2 == 0})
+			sess = append(sess, mboxkit.Op{Kind: "session", MID: []byte(proposed), Arg: arg, Note: m.Class + "/" + variant})
+		}
+		if inLine {
+			mk(m.MID, m.MID, "proposed+header")
+		}
+		if !strings.ContainsAny(m.MID, "\r\n") {
+			mk(fmt.Sprintf("BENIGN%d", i), m.MID, "header-only")
+		}
+	}
+	for lo := 0; lo < len(sess); lo += 12 {
+		cs = append(cs, vrt.Case{ID: fmt.Sprintf("session-%d", lo), TimeoutS: 900, Params: vrt.MustParams(params{Ops: sess[lo:min(lo+12, len(sess))]})})
+	}
 	nPRNG := 400
 	if tier == "thorough" {
 		nPRNG = 20000
@@ -209,6 +232,14 @@ func Judge(o *vrt.Obs, res mboxkit.Result) {
 		}
 		o.Evals++
 		o.Count("snapshot_diffs_evaluated", 1)
+		if r.Op.Kind == "session" {
+			switch {
+			case strings.Contains(r.Ret, "delivered=[]"):
+				o.Count("session_leg_message_not_stored", 1)
+			case strings.Contains(r.Ret, "delivered=["):
+				o.Count("session_leg_message_stored_by_the_real_mailbox", 1)
+			}
+		}
 		o.Count("files_touched_inside_mailbox", int64(r.Inside))
 		kind := r.Op.Kind
 		if r.Op.Parsed {
